@@ -437,10 +437,18 @@ func genPool(c *genctx) {
 				}
 				evs = append(evs, fmt.Sprintf("S%d,%s", pickID(), b))
 			case x < 74:
+				// The halves of a Conn.Close nest like calls (the events in between run inside the transport's Close), so
+				// the generator keeps the stack of B events whose E is still to come. A connection that is already on that
+				// stack gets another B only while it is the innermost one (the CAS fails, or - if the first B came before
+				// the connection existed - this is the real Close and the pending E is its callback): anything else would
+				// ask for an E in the middle of another connection's Close, which one goroutine cannot do.
 				id := pickID()
-				evs = append(evs, fmt.Sprintf("B%d", id))
-				if !inStack(id) {
+				switch {
+				case !inStack(id):
+					evs = append(evs, fmt.Sprintf("B%d", id))
 					stack = append(stack, id)
+				case stack[len(stack)-1] == id:
+					evs = append(evs, fmt.Sprintf("B%d", id))
 				}
 			case x < 92:
 				if len(stack) > 0 && c.r.chance(85) {
